@@ -1,4 +1,5 @@
-import Shuttle.Model.AOD
+import Shuttle.Lemmas.StdMoves
+import Shuttle.Model.StdLib
 /-!
 # C08 — general laws of the AOD simulator (every accepted run, any paths, any occupancy)
 -/
@@ -176,5 +177,513 @@ theorem C08_exec_conserves_atoms (sites : List Site) (occ : List Site) (ps : Lis
   refine ⟨?_, k.2.1 hn, k.2.2⟩
   have := k.1
   simpa [State.atoms, State.init] using this
+
+end Shuttle.Props.C08
+
+namespace Shuttle.Props.C08
+open Shuttle Shuttle.AOD Shuttle.StdMoves
+open Shuttle.Gen.ActionTables (Tag)
+
+/-! ## `move_by_waypoints` ends where documented (all waypoint lists, all occupancies) -/
+
+theorem waypoints_refPath (w0 gl : Grid) (rest : List Grid)
+    (hshape : ∀ g ∈ rest, g.shape = w0.shape) (hlast : (w0 :: rest).getLast? = some gl) :
+    refPath ([Op.setLoc w0] ++ [Op.turn true ALL ALL] ++ rest.map Op.move ++ [Op.turn false ALL ALL]) =
+      some [.way [w0], .sw (refTag true ALL ALL) ALL ALL, .way (w0 :: rest), .sw (refTag false ALL ALL) ALL ALL,
+            .way [gl]] := by
+  unfold refPath
+  simp only [List.singleton_append, List.cons_append, List.nil_append, rrun, rstep, List.getLast?_singleton]
+  rw [rrun_moves rest _ [w0] w0 _ (by simp) hshape]
+  simp only [rrun, rstep, List.singleton_append, hlast]
+  simp [rout]
+
+theorem shapeOK_of_shape (w0 g : Grid) (h : g.shape = w0.shape) :
+    shapeOK (tonesOf w0.numX) (tonesOf w0.numY) g = true := by
+  simp only [Grid.shape, Prod.mk.injEq] at h
+  simp [shapeOK, tonesOf_length, h.1, h.2]
+
+/-- **`move_by_waypoints(wps, pick=True, drop=True)`**: for every non-empty list of waypoints of one shape, if the sites
+of the first waypoint are distinct occupied traps and the sites of the last are distinct trap sites of the layout that
+are vacant once the atoms have been picked up, the move is not rejected, its path is physically executable, and the atoms
+of the first waypoint end exactly on the last waypoint; nothing else moves. -/
+theorem C08_waypoints_destination (sites occ : List Site) (w0 gl : Grid) (rest : List Grid)
+    (hshape : ∀ g ∈ rest, g.shape = w0.shape) (hlast : (w0 :: rest).getLast? = some gl)
+    (hsrc : w0.positions.Nodup) (hocc : ∀ p ∈ w0.positions, p ∈ occ)
+    (hdst : gl.positions.Nodup) (hsite : ∀ p ∈ gl.positions, p ∈ sites)
+    (hvac : ∀ p ∈ gl.positions, p ∉ w0.positions.foldl List.erase occ) :
+    ∃ ps, moveByWaypoints (w0 :: rest) true true = some ps ∧
+      playAll sites (State.init occ) ps = .ok ⟨w0.positions.foldl List.erase occ ++ gl.positions, [], [], []⟩ := by
+  let xt := tonesOf w0.numX
+  let yt := tonesOf w0.numY
+  have hall : (w0 :: rest).all (shapeOK xt yt) = true := by
+    rw [List.all_eq_true]
+    intro g hg
+    rcases List.mem_cons.1 hg with rfl | hg
+    · exact shapeOK_of_shape _ _ rfl
+    · exact shapeOK_of_shape _ _ (hshape g hg)
+  have hs0 : shapeOK xt yt w0 = true := shapeOK_of_shape _ _ rfl
+  have hsl : shapeOK xt yt gl = true := List.all_eq_true.1 hall gl (List.mem_of_getLast? hlast)
+  have e0 := cross_map_place xt yt w0 hs0 (tonesOf_nodup _) (tonesOf_nodup _)
+  have el := cross_map_place xt yt gl hsl (tonesOf_nodup _) (tonesOf_nodup _)
+  refine ⟨[⟨xt, yt, [.way [w0], .sw (refTag true ALL ALL) ALL ALL, .way (w0 :: rest), .sw (refTag false ALL ALL) ALL ALL,
+    .way [gl]]⟩], ?_, ?_⟩
+  · simp only [moveByWaypoints, devCall, waypointsOps, if_true, Option.bind_eq_bind, Option.bind_some]
+    rw [waypoints_refPath w0 gl rest hshape hlast]
+    rfl
+  · simp only [playAll]
+    have := transport sites occ xt yt ALL ALL xt yt (refTag true ALL ALL) (refTag false ALL ALL) w0 gl rest
+      (place xt yt w0) (place xt yt gl) rfl rfl (select_all _) (select_all _) (tonesOf_nodup _) (tonesOf_nodup _)
+      (fun _ h => h) (fun _ h => h) hall hlast
+      (fun sp h => spotPos_place xt yt w0 sp hs0 (mem_cross.1 h).1 (mem_cross.1 h).2)
+      (fun sp h => spotPos_place xt yt gl sp hsl (mem_cross.1 h).1 (mem_cross.1 h).2)
+      (by rw [e0]; exact hsrc)
+      (by intro sp h; exact hocc _ (by rw [← e0]; exact List.mem_map_of_mem h))
+      (by rw [el]; exact hdst)
+      (by intro sp h; exact hsite _ (by rw [← el]; exact List.mem_map_of_mem h))
+      (by intro sp h; rw [e0]; exact hvac _ (by rw [← el]; exact List.mem_map_of_mem h))
+    rw [this, e0, el]
+
+end Shuttle.Props.C08
+
+namespace Shuttle.Props.C08
+open Shuttle Shuttle.AOD Shuttle.StdMoves
+open Shuttle.Gen.ActionTables (Tag)
+
+/-! ## the single-zone CZ move returns every atom to its origin -/
+
+theorem subSpacing_length (sp : List Rat) : ∀ (l : List Int), (Grid.subSpacing sp l).length = l.length - 1
+  | [] => by simp [Grid.subSpacing]
+  | [_] => by simp [Grid.subSpacing]
+  | a :: b :: t => by
+    simp only [Grid.subSpacing, List.length_cons]
+    have := subSpacing_length sp (b :: t)
+    simp only [List.length_cons] at this
+    omega
+
+theorem subGrid_shape (zone v : Grid) (px py : Rat) (xi yi : List Int) (hx : zone.xInit = some px)
+    (hy : zone.yInit = some py) (h : zone.subGrid xi yi = some v) : v.shape = (xi.length, yi.length) := by
+  unfold Grid.subGrid at h
+  split at h
+  · cases h
+  · rename_i hne
+    simp only [List.isEmpty_iff, not_or] at hne
+    cases h
+    cases xi with
+    | nil => exact absurd rfl hne.1
+    | cons a t =>
+      cases yi with
+      | nil => exact absurd rfl hne.2
+      | cons b u =>
+        simp [Grid.shape, Grid.numX, Grid.numY, Grid.subInit, hx, hy, subSpacing_length]
+
+theorem shift_shape (g : Grid) (dx dy : Rat) : (g.shift dx dy).shape = g.shape := by
+  unfold Grid.shift Grid.shape Grid.numX Grid.numY
+  cases g.xInit <;> cases g.yInit <;> simp
+
+theorem spacingOf_length : ∀ (l : List Rat), (Grid.spacingOf l).length = l.length - 1
+  | [] => by simp [Grid.spacingOf]
+  | [_] => by simp [Grid.spacingOf]
+  | a :: b :: t => by
+    simp only [Grid.spacingOf, List.length_cons]
+    have := spacingOf_length (b :: t)
+    simp only [List.length_cons] at this
+    omega
+
+theorem fromPositions_shape (xs ys : List Rat) : (Grid.fromPositions xs ys).shape = (xs.length, ys.length) := by
+  unfold Grid.fromPositions Grid.shape Grid.numX Grid.numY
+  cases xs <;> cases ys <;> simp [spacingOf_length]
+
+theorem shapeOK_tones (nx ny : Nat) (g : Grid) (h : g.shape = (nx, ny)) : shapeOK (tonesOf nx) (tonesOf ny) g = true := by
+  simp only [Grid.shape, Prod.mk.injEq] at h
+  simp [shapeOK, tonesOf_length, h.1, h.2]
+
+/-- **single-zone CZ move** (`cz_move` / `default_move_cz`): for every zone, every shift and all index lists for which the
+kernel's own checks pass (equal lengths, strictly ascending, sub-grids exist), if the control sites are distinct occupied
+traps of the layout, the move is not rejected, both of its paths are physically executable (no jump between the forward
+and the return path), and afterwards exactly the same traps are occupied as before, each by one atom. -/
+theorem C08_cz_returns_to_origin (sites occ : List Site) (zone start target : Grid) (px py dx dy : Rat)
+    (cx cy qx qy : List Int)
+    (hzx : zone.xInit = some px) (hzy : zone.yInit = some py)
+    (hlx : cx.length = qx.length) (hly : cy.length = qy.length) (hne : 1 ≤ cx.length)
+    (hsorted : (sortedStrict cx && sortedStrict cy && sortedStrict qx && sortedStrict qy) = true)
+    (hstart : zone.subGrid cx cy = some start) (htarget : zone.subGrid qx qy = some target)
+    (hsrc : start.positions.Nodup) (hocc : ∀ p ∈ start.positions, p ∈ occ) (hsite : ∀ p ∈ start.positions, p ∈ sites)
+    (hoccnd : occ.Nodup) :
+    ∃ ps s', czMove zone cx cy qx qy dx dy = some ps ∧ playAll sites (State.init occ) ps = .ok s' ∧
+      s'.held = [] ∧ s'.occ.Nodup ∧ ∀ q, q ∈ s'.occ ↔ q ∈ occ := by
+  let xt := tonesOf cx.length
+  let yt := tonesOf cy.length
+  let end_ := target.shift dx dy
+  let first := start.shift dx dy
+  let second := Grid.fromPositions end_.xPositions first.yPositions
+  have sh0 : start.shape = (cx.length, cy.length) := subGrid_shape zone start px py cx cy hzx hzy hstart
+  have sht : target.shape = (cx.length, cy.length) := by
+    rw [subGrid_shape zone target px py qx qy hzx hzy htarget, hlx, hly]
+  have sh1 : first.shape = (cx.length, cy.length) := by rw [shift_shape]; exact sh0
+  have she : end_.shape = (cx.length, cy.length) := by rw [shift_shape]; exact sht
+  have sh2 : second.shape = (cx.length, cy.length) := by
+    rw [fromPositions_shape, xPositions_length, yPositions_length]
+    simp only [Grid.shape, Prod.mk.injEq] at she sh1
+    rw [she.1, sh1.2]
+  have ok0 := shapeOK_tones _ _ _ sh0
+  have ok1 := shapeOK_tones _ _ _ sh1
+  have ok2 := shapeOK_tones _ _ _ sh2
+  have oke := shapeOK_tones _ _ _ she
+  have e0 := cross_map_place xt yt start ok0 (tonesOf_nodup _) (tonesOf_nodup _)
+  -- the kernel's operation sequence and its reference trace
+  have hops : czOps zone cx cy qx qy dx dy =
+      some [.setLoc start, .turn true ALL ALL, .move first, .move second, .move end_] := by
+    have hl : ¬ (cx.length ≠ qx.length ∨ cy.length ≠ qy.length) := by simp [hlx, hly]
+    simp only [czOps, hl, if_false, hsorted, Bool.not_true, Bool.false_eq_true, hstart, htarget,
+      Option.bind_eq_bind, Option.bind_some]
+    rfl
+  have hpath : refPath [.setLoc start, .turn true ALL ALL, .move first, .move second, .move end_] =
+      some [.way [start], .sw (refTag true ALL ALL) ALL ALL, .way [start, first, second, end_]] := by
+    have := pick_carry_refPath start [first, second, end_] ALL ALL (by
+        intro g hg
+        simp only [List.mem_cons, List.not_mem_nil, or_false] at hg
+        rcases hg with rfl | rfl | rfl
+        · rw [sh1, sh0]
+        · rw [sh2, sh0]
+        · rw [she, sh0])
+    simpa using this
+  have hrev : reversePath [.way [start], .sw (refTag true ALL ALL) ALL ALL, .way [start, first, second, end_]] =
+      some [.way [end_, second, first, start], .sw ⟨false, true, true⟩ ALL ALL, .way [start]] := by
+    rfl
+  refine ⟨[⟨xt, yt, [.way [start], .sw (refTag true ALL ALL) ALL ALL, .way [start, first, second, end_]]⟩,
+           ⟨xt, yt, [.way [end_, second, first, start], .sw ⟨false, true, true⟩ ALL ALL, .way [start]]⟩],
+          ⟨((cross xt yt).map (place xt yt start)).foldl List.erase occ ++ (cross xt yt).map (place xt yt start), [], [], []⟩,
+          ?_, ?_, ?_⟩
+  · have hn : ¬ (cx.length < 1 ∨ qx.length < 1) := by omega
+    simp only [czMove, hn, if_false, devCall, devCallRev, hops, hpath, hrev, Option.bind_eq_bind, Option.bind_some]
+    rfl
+  · exact round_trip sites occ xt yt ALL ALL xt yt (refTag true ALL ALL) ⟨false, true, true⟩ start end_
+      [first, second, end_] [second, first, start] (place xt yt start) (place xt yt end_) rfl rfl
+      (select_all _) (select_all _) (tonesOf_nodup _) (tonesOf_nodup _) (fun _ h => h) (fun _ h => h)
+      (by simp only [List.all_cons, List.all_nil, Bool.and_true, Bool.and_eq_true]; exact ⟨ok0, ok1, ok2, oke⟩) (by simp)
+      (by simp only [List.all_cons, List.all_nil, Bool.and_true, Bool.and_eq_true]; exact ⟨oke, ok2, ok1, ok0⟩) (by simp)
+      (fun sp h => spotPos_place xt yt start sp ok0 (mem_cross.1 h).1 (mem_cross.1 h).2)
+      (fun sp h => spotPos_place xt yt end_ sp oke (mem_cross.1 h).1 (mem_cross.1 h).2)
+      (by rw [e0]; exact hsrc)
+      (by intro sp h; exact hocc _ (by rw [← e0]; exact List.mem_map_of_mem h))
+      (by intro sp h; exact hsite _ (by rw [← e0]; exact List.mem_map_of_mem h))
+      hoccnd
+  · simp only [e0]
+    have := erase_then_append_perm occ start.positions hoccnd hsrc hocc
+    exact ⟨trivial, this.2, this.1⟩
+
+end Shuttle.Props.C08
+
+namespace Shuttle.Props.C08
+open Shuttle Shuttle.AOD Shuttle.StdMoves
+
+/-! non-vacuity: concrete layouts meeting the hypotheses of the two destination theorems -/
+
+private def zone22 : Grid := ⟨[10], [10], some 0, some 0⟩
+private def sites22 : List Site := [(0, 0), (0, 10), (10, 0), (10, 10)]
+
+example : ∃ ps s', czMove zone22 [0] [0] [1] [1] 2 2 = some ps ∧ playAll sites22 (State.init [(0, 0), (10, 10)]) ps = .ok s' ∧
+    s'.held = [] ∧ s'.occ.Nodup ∧ ∀ q, q ∈ s'.occ ↔ q ∈ [((0 : Rat), (0 : Rat)), (10, 10)] :=
+  C08_cz_returns_to_origin sites22 [(0, 0), (10, 10)] zone22 ⟨[], [], some 0, some 0⟩ ⟨[], [], some 10, some 10⟩ 0 0 2 2
+    [0] [0] [1] [1] rfl rfl rfl rfl (by decide) (by decide) (by decide +kernel) (by decide +kernel)
+    (by decide +kernel) (by decide +kernel) (by decide +kernel) (by decide +kernel)
+
+example : ∃ ps, moveByWaypoints [zone22.shift 0 0, zone22.shift 0 3, ⟨[10], [10], some 0, some 0⟩] true true = some ps ∧
+    playAll sites22 (State.init sites22) ps =
+      .ok ⟨(zone22.shift 0 0).positions.foldl List.erase sites22 ++ zone22.positions, [], [], []⟩ :=
+  C08_waypoints_destination sites22 sites22 (zone22.shift 0 0) zone22 [zone22.shift 0 3, zone22]
+    (by decide +kernel) (by decide +kernel) (by decide +kernel) (by decide +kernel) (by decide +kernel) (by decide +kernel)
+    (by decide +kernel)
+
+end Shuttle.Props.C08
+
+namespace Shuttle.Props.C08
+open Shuttle Shuttle.AOD Shuttle.StdMoves
+open Shuttle.Gen.ActionTables (Tag)
+
+/-! ## two-column `rearrange` ends on the destination sites -/
+
+/-- set, switch on, a run of moves, switch off -/
+theorem pick_carry_drop_refPath (g0 gl : Grid) (gs : List Grid) (sx sy : Sel) (hs : ∀ g ∈ gs, g.shape = g0.shape)
+    (hlast : (g0 :: gs).getLast? = some gl) :
+    refPath ([Op.setLoc g0, Op.turn true sx sy] ++ gs.map Op.move ++ [Op.turn false sx sy]) =
+      some [.way [g0], .sw (refTag true sx sy) sx sy, .way (g0 :: gs), .sw (refTag false sx sy) sx sy, .way [gl]] := by
+  unfold refPath
+  simp only [List.cons_append, List.nil_append, rrun, rstep, List.getLast?_singleton]
+  rw [rrun_moves gs _ [g0] g0 _ (by simp) hs]
+  simp only [rrun, rstep, List.singleton_append, hlast]
+  simp [rout]
+
+/-- **two-column `rearrange`**: for every zone and all index lists on which the kernel does not raise (equal lengths, strictly
+ascending, in range), if the source sites are distinct occupied traps and the destination sites are distinct trap sites of the
+layout that are vacant once the atoms have been picked up, the move's path is physically executable and the atoms of
+`zone[src_x × src_y]` end exactly on `zone[dst_x × dst_y]`; nothing else moves. -/
+theorem C08_rearrange_destination (sites occ : List Site) (zone start end_ : Grid) (px py : Rat)
+    (sx sy dx dy : List Int) (ops : List Op)
+    (hzx : zone.xInit = some px) (hzy : zone.yInit = some py) (hne : 1 ≤ sx.length) (hne' : 1 ≤ dx.length)
+    (hops : rearrangeOps zone sx sy dx dy = some ops)
+    (hstart : zone.subGrid sx sy = some start) (hend : zone.subGrid dx dy = some end_)
+    (hsrc : start.positions.Nodup) (hocc : ∀ p ∈ start.positions, p ∈ occ)
+    (hdst : end_.positions.Nodup) (hsite : ∀ p ∈ end_.positions, p ∈ sites)
+    (hvac : ∀ p ∈ end_.positions, p ∉ start.positions.foldl List.erase occ) :
+    ∃ ps, rearrange zone sx sy dx dy = some ps ∧
+      playAll sites (State.init occ) ps = .ok ⟨start.positions.foldl List.erase occ ++ end_.positions, [], [], []⟩ := by
+  let xt := tonesOf sx.length
+  let yt := tonesOf sy.length
+  -- unfold the kernel: the lengths agree and the parking grids exist
+  unfold rearrangeOps at hops
+  split at hops
+  · cases hops
+  rename_i hlen
+  split at hops
+  · cases hops
+  simp only [hstart, hend, Option.bind_eq_bind, Option.bind_some] at hops
+  have hlx : sx.length = dx.length := by
+    by_cases h : sx.length = dx.length
+    · exact h
+    · exact absurd (Or.inl h) hlen
+  have hly : sy.length = dy.length := by
+    by_cases h : sy.length = dy.length
+    · exact h
+    · exact absurd (Or.inr h) hlen
+  cases h1 : sx.mapM (parkingX zone) with
+  | none => simp [h1] at hops
+  | some srcPx =>
+  cases h2 : dx.mapM (parkingX zone) with
+  | none => simp [h1, h2] at hops
+  | some dstPx =>
+  cases h3 : parkingYs parkingYStart start.yPositions end_.yPositions sy.length with
+  | none => simp [h1, h2, h3] at hops
+  | some srcPy =>
+  cases h4 : parkingYs parkingYEnd start.yPositions end_.yPositions sy.length with
+  | none => simp [h1, h2, h3, h4] at hops
+  | some dstPy =>
+  simp only [h1, h2, h3, h4, Option.bind_some, Option.some.injEq] at hops
+  have l1 : srcPx.length = sx.length := mapM_option_length _ _ _ h1
+  have l2 : dstPx.length = sx.length := by rw [mapM_option_length _ _ _ h2, hlx]
+  have l3 : srcPy.length = sy.length := by rw [mapM_option_length _ _ _ h3]; simp
+  have l4 : dstPy.length = sy.length := by rw [mapM_option_length _ _ _ h4]; simp
+  let srcParking := Grid.fromPositions srcPx srcPy
+  let dstParking := Grid.fromPositions dstPx dstPy
+  let mid := Grid.fromPositions srcParking.xPositions dstParking.yPositions
+  have sh0 : start.shape = (sx.length, sy.length) := subGrid_shape zone start px py sx sy hzx hzy hstart
+  have she : end_.shape = (sx.length, sy.length) := by
+    rw [subGrid_shape zone end_ px py dx dy hzx hzy hend, hlx, hly]
+  have sh1 : srcParking.shape = (sx.length, sy.length) := by rw [fromPositions_shape, l1, l3]
+  have sh3 : dstParking.shape = (sx.length, sy.length) := by rw [fromPositions_shape, l2, l4]
+  have sh2 : mid.shape = (sx.length, sy.length) := by
+    rw [fromPositions_shape, xPositions_length, yPositions_length]
+    simp only [Grid.shape, Prod.mk.injEq] at sh1 sh3
+    rw [sh1.1, sh3.2]
+  have ok0 := shapeOK_tones _ _ _ sh0
+  have ok1 := shapeOK_tones _ _ _ sh1
+  have ok2 := shapeOK_tones _ _ _ sh2
+  have ok3 := shapeOK_tones _ _ _ sh3
+  have oke := shapeOK_tones _ _ _ she
+  have e0 := cross_map_place xt yt start ok0 (tonesOf_nodup _) (tonesOf_nodup _)
+  have el := cross_map_place xt yt end_ oke (tonesOf_nodup _) (tonesOf_nodup _)
+  have hpath := pick_carry_drop_refPath start end_ [srcParking, mid, dstParking, end_] ALL ALL (by
+      intro g hg
+      simp only [List.mem_cons, List.not_mem_nil, or_false] at hg
+      rcases hg with rfl | rfl | rfl | rfl
+      · rw [sh1, sh0]
+      · rw [sh2, sh0]
+      · rw [sh3, sh0]
+      · rw [she, sh0]) (by simp)
+  refine ⟨[⟨xt, yt, [.way [start], .sw (refTag true ALL ALL) ALL ALL, .way [start, srcParking, mid, dstParking, end_],
+                      .sw (refTag false ALL ALL) ALL ALL, .way [end_]]⟩], ?_, ?_⟩
+  · have hn : ¬ (sx.length < 1 ∨ dx.length < 1) := by omega
+    have hops' : rearrangeOps zone sx sy dx dy = some ops := by
+      unfold rearrangeOps
+      simp only [hlen, if_false]
+      rename_i hsorted
+      simp [hsorted, hstart, hend, h1, h2, h3, h4, hops]
+    simp only [rearrange, hn, if_false, devCall, hops', Option.bind_eq_bind, Option.bind_some]
+    rw [← hops]
+    have : refPath [Op.setLoc start, Op.turn true ALL ALL, Op.move srcParking, Op.move mid, Op.move dstParking,
+        Op.move end_, Op.turn false ALL ALL] =
+        some [.way [start], .sw (refTag true ALL ALL) ALL ALL, .way [start, srcParking, mid, dstParking, end_],
+          .sw (refTag false ALL ALL) ALL ALL, .way [end_]] := by simpa using hpath
+    rw [this]
+    rfl
+  · simp only [playAll]
+    have := transport sites occ xt yt ALL ALL xt yt (refTag true ALL ALL) (refTag false ALL ALL) start end_
+      [srcParking, mid, dstParking, end_]
+      (place xt yt start) (place xt yt end_) rfl rfl (select_all _) (select_all _) (tonesOf_nodup _) (tonesOf_nodup _)
+      (fun _ h => h) (fun _ h => h)
+      (by simp only [List.all_cons, List.all_nil, Bool.and_true, Bool.and_eq_true]; exact ⟨ok0, ok1, ok2, ok3, oke⟩)
+      (by simp)
+      (fun sp h => spotPos_place xt yt start sp ok0 (mem_cross.1 h).1 (mem_cross.1 h).2)
+      (fun sp h => spotPos_place xt yt end_ sp oke (mem_cross.1 h).1 (mem_cross.1 h).2)
+      (by rw [e0]; exact hsrc)
+      (by intro sp h; exact hocc _ (by rw [← e0]; exact List.mem_map_of_mem h))
+      (by rw [el]; exact hdst)
+      (by intro sp h; exact hsite _ (by rw [← el]; exact List.mem_map_of_mem h))
+      (by intro sp h; rw [e0]; exact hvac _ (by rw [← el]; exact List.mem_map_of_mem h))
+    rw [this, e0, el]
+
+end Shuttle.Props.C08
+
+namespace Shuttle.Props.C08
+open Shuttle Shuttle.AOD Shuttle.StdMoves
+open Shuttle.Gen.ActionTables (Tag)
+
+/-! ## the Gemini moves: a decidable readiness check per input, lifted to every occupancy by `transport` -/
+
+/-- the occupancy-independent hypotheses of `transport`, as a computation -/
+def transportReady (xt yt : List Int) (sx sy : Sel) (g0 gl : Grid) (rest : List Grid) : Bool :=
+  match select xt sx, select yt sy with
+  | some xs, some ys =>
+    decide xs.Nodup && decide ys.Nodup && xs.all (· ∈ xt) && ys.all (· ∈ yt) && (g0 :: rest).all (shapeOK xt yt)
+      && ((g0 :: rest).getLast? == some gl)
+      && decide ((cross xs ys).map (place xt yt g0)).Nodup && decide ((cross xs ys).map (place xt yt gl)).Nodup
+  | _, _ => false
+
+/-- sites under the selected spots of a grid -/
+def selectedSites (xt yt : List Int) (sx sy : Sel) (g : Grid) : List Site :=
+  match select xt sx, select yt sy with
+  | some xs, some ys => (cross xs ys).map (place xt yt g)
+  | _, _ => []
+
+/-- `transport` with its occupancy-independent hypotheses discharged by computation -/
+theorem transport_of_ready (sites occ : List Site) (xt yt : List Int) (sx sy : Sel) (ton toff : Tag)
+    (g0 gl : Grid) (rest : List Grid) (hton : ton.on = true) (htoff : toff.on = false)
+    (hready : transportReady xt yt sx sy g0 gl rest = true)
+    (hocc : ∀ p ∈ selectedSites xt yt sx sy g0, p ∈ occ)
+    (hsite : ∀ p ∈ selectedSites xt yt sx sy gl, p ∈ sites)
+    (hvac : ∀ p ∈ selectedSites xt yt sx sy gl, p ∉ (selectedSites xt yt sx sy g0).foldl List.erase occ) :
+    playPath sites (State.init occ) ⟨xt, yt, [.way [g0], .sw ton sx sy, .way (g0 :: rest), .sw toff sx sy, .way [gl]]⟩
+      = .ok ⟨(selectedSites xt yt sx sy g0).foldl List.erase occ ++ selectedSites xt yt sx sy gl, [], [], []⟩ := by
+  unfold transportReady at hready
+  unfold selectedSites at hocc hsite hvac ⊢
+  cases hx : select xt sx with
+  | none => simp [hx] at hready
+  | some xs =>
+    cases hy : select yt sy with
+    | none => simp [hx, hy] at hready
+    | some ys =>
+      simp only [hx, hy, Bool.and_eq_true, decide_eq_true_eq, List.all_eq_true, beq_iff_eq] at hready hocc hsite hvac ⊢
+      obtain ⟨⟨⟨⟨⟨⟨⟨hxn, hyn⟩, hxin⟩, hyin⟩, hshape⟩, hlast⟩, hsrc⟩, hdst⟩ := hready
+      have hshape' : (g0 :: rest).all (shapeOK xt yt) = true := List.all_eq_true.2 hshape
+      have hs0 : shapeOK xt yt g0 = true := hshape g0 (by simp)
+      have hsl : shapeOK xt yt gl = true := hshape gl (List.mem_of_getLast? hlast)
+      exact transport sites occ xt yt sx sy xs ys ton toff g0 gl rest (place xt yt g0) (place xt yt gl) hton htoff hx hy
+        hxn hyn (fun x h => by simpa using hxin x h) (fun y h => by simpa using hyin y h) hshape' hlast
+        (fun sp h => spotPos_place xt yt g0 sp hs0 (by simpa using hxin _ (mem_cross.1 h).1) (by simpa using hyin _ (mem_cross.1 h).2))
+        (fun sp h => spotPos_place xt yt gl sp hsl (by simpa using hxin _ (mem_cross.1 h).1) (by simpa using hyin _ (mem_cross.1 h).2))
+        hsrc (fun sp h => hocc _ (List.mem_map_of_mem h)) hdst (fun sp h => hsite _ (List.mem_map_of_mem h))
+        (fun sp h => hvac _ (List.mem_map_of_mem h))
+
+end Shuttle.Props.C08
+
+namespace Shuttle.Props.C08
+open Shuttle Shuttle.AOD Shuttle.StdMoves
+open Shuttle.Gen.ActionTables (Tag)
+
+/-- a move's model output is one pick / carry / release path, ready for `transport`, from `src` to `dst` -/
+def checkMove (ps : Option (List PathVal)) (src dst : List Site) : Bool :=
+  match ps with
+  | some [⟨xt, yt, [.way [g0], .sw t1 sx sy, .way (g0' :: rest), .sw t2 sx' sy', .way [gl]]⟩] =>
+    g0 == g0' && sx == sx' && sy == sy' && t1.on && !t2.on && transportReady xt yt sx sy g0 gl rest
+      && selectedSites xt yt sx sy g0 == src && selectedSites xt yt sx sy gl == dst
+  | _ => false
+
+theorem checkMove_sound (sites occ : List Site) (ps : Option (List PathVal)) (src dst : List Site)
+    (h : checkMove ps src dst = true)
+    (hocc : ∀ p ∈ src, p ∈ occ) (hsite : ∀ p ∈ dst, p ∈ sites) (hvac : ∀ p ∈ dst, p ∉ src.foldl List.erase occ) :
+    ∃ ps', ps = some ps' ∧ playAll sites (State.init occ) ps' = .ok ⟨src.foldl List.erase occ ++ dst, [], [], []⟩ := by
+  unfold checkMove at h
+  split at h
+  · rename_i xt yt g0 t1 sx sy g0' rest t2 sx' sy' gl
+    simp only [Bool.and_eq_true, beq_iff_eq, Bool.not_eq_true'] at h
+    obtain ⟨⟨⟨⟨⟨⟨⟨hg, hsx⟩, hsy⟩, ht1⟩, ht2⟩, hready⟩, hsrc⟩, hdst⟩ := h
+    subst hg hsx hsy hsrc hdst
+    refine ⟨_, rfl, ?_⟩
+    simp only [playAll]
+    rw [transport_of_ready sites occ xt yt sx sy t1 t2 g0 gl rest ht1 ht2 hready hocc hsite hvac]
+  · cases h
+
+/-- the Gemini constants a move reads from its spec -/
+def geminiOf (sp : ArchSpec) : Option Gemini := do
+  some ⟨← sp.layout.staticTraps.lookup "GL_blocks", ← sp.layout.staticTraps.lookup "GR_blocks",
+        ← sp.intC.lookup "logical_rows", ← sp.intC.lookup "code_size",
+        ← sp.floatC.lookup "row_separation", ← sp.floatC.lookup "col_separation", ← sp.floatC.lookup "gate_spacing"⟩
+
+/-- sites of `block[col*code_size : (col+1)*code_size, rows]` -/
+def blockSites (G : Gemini) (block : Grid) (col : Int) (rows : List Int) : List Site :=
+  match getBlock G block col rows with
+  | some g => g.positions
+  | none => []
+
+/-- all non-empty sub-lists, in order -/
+def subLists {α : Type} : List α → List (List α)
+  | [] => []
+  | a :: t => [a] :: ((subLists t).map (a :: ·)) ++ subLists t
+
+/-- every documented-valid input of `vertical_shift`: offset ≥ 0, a logical column, ascending rows that stay inside -/
+def vshiftInputs (G : Gemini) : List (Int × Int × List Int) :=
+  (intRange 0 G.rows).flatMap fun off => [0, 1].flatMap fun col =>
+    (subLists (intRange 0 (G.rows - off))).map fun rows => (off, col, rows)
+
+def vshiftAllOK : Bool :=
+  match StdLib.geminiLogical.bind geminiOf with
+  | some G => (vshiftInputs G).all fun (off, col, rows) =>
+      checkMove (verticalShift G off col rows) (blockSites G G.GL col rows) (blockSites G G.GR col (rows.map (· + off)))
+  | none => false
+
+def grAllOK : Bool :=
+  match StdLib.geminiLogical.bind geminiOf with
+  | some G => (subLists (intRange 0 G.rows)).all fun rows =>
+      checkMove (grZeroToOne G rows) (blockSites G G.GR 0 rows) (blockSites G G.GR 1 rows)
+  | none => false
+
+end Shuttle.Props.C08
+
+namespace Shuttle.Props.C08
+open Shuttle Shuttle.AOD Shuttle.StdMoves
+
+/-- 114 inputs, each checked by kernel evaluation -/
+theorem vshift_all_ok : vshiftAllOK = true := by decide +kernel
+
+theorem gr_all_ok : grAllOK = true := by decide +kernel
+
+/-- **Gemini `vertical_shift`** on the layout of `logical.get_spec()` (as modelled in Model/StdLib.lean): for every offset ≥ 0,
+logical column and ascending list of rows that stay inside the block, and every occupancy in which the source sites
+`GL[col, rows]` are occupied and the destination sites `GR[col, rows + offset]` are trap sites that are vacant once the atoms
+have been picked up: the move is not rejected, its path is physically executable, and the atoms end exactly on
+`GR[col, rows + offset]`; nothing else moves. -/
+theorem C08_vertical_shift_destination (G : Gemini) (hG : StdLib.geminiLogical.bind geminiOf = some G)
+    (sites occ : List Site) (off col : Int) (rows : List Int) (hin : (off, col, rows) ∈ vshiftInputs G)
+    (hocc : ∀ p ∈ blockSites G G.GL col rows, p ∈ occ)
+    (hsite : ∀ p ∈ blockSites G G.GR col (rows.map (· + off)), p ∈ sites)
+    (hvac : ∀ p ∈ blockSites G G.GR col (rows.map (· + off)), p ∉ (blockSites G G.GL col rows).foldl List.erase occ) :
+    ∃ ps, verticalShift G off col rows = some ps ∧
+      playAll sites (State.init occ) ps =
+        .ok ⟨(blockSites G G.GL col rows).foldl List.erase occ ++ blockSites G G.GR col (rows.map (· + off)), [], [], []⟩ := by
+  have h := vshift_all_ok
+  unfold vshiftAllOK at h
+  rw [hG] at h
+  have := List.all_eq_true.1 h (off, col, rows) hin
+  exact checkMove_sound sites occ _ _ _ this hocc hsite hvac
+
+/-- **Gemini `gr_zero_to_one`**: for every ascending list of rows and every occupancy in which `GR0[:, rows]` is occupied and
+`GR1[:, rows]` are trap sites vacant once the atoms have been picked up, the move is not rejected, its path is physically
+executable and the atoms end exactly on `GR1[:, rows]`. -/
+theorem C08_gr_zero_to_one_destination (G : Gemini) (hG : StdLib.geminiLogical.bind geminiOf = some G)
+    (sites occ : List Site) (rows : List Int) (hin : rows ∈ subLists (intRange 0 G.rows))
+    (hocc : ∀ p ∈ blockSites G G.GR 0 rows, p ∈ occ)
+    (hsite : ∀ p ∈ blockSites G G.GR 1 rows, p ∈ sites)
+    (hvac : ∀ p ∈ blockSites G G.GR 1 rows, p ∉ (blockSites G G.GR 0 rows).foldl List.erase occ) :
+    ∃ ps, grZeroToOne G rows = some ps ∧
+      playAll sites (State.init occ) ps =
+        .ok ⟨(blockSites G G.GR 0 rows).foldl List.erase occ ++ blockSites G G.GR 1 rows, [], [], []⟩ := by
+  have h := gr_all_ok
+  unfold grAllOK at h
+  rw [hG] at h
+  have := List.all_eq_true.1 h rows hin
+  exact checkMove_sound sites occ _ _ _ this hocc hsite hvac
+
+/-- the Gemini hypotheses are satisfiable: the modelled spec yields the constants -/
+example : (StdLib.geminiLogical.bind geminiOf).isSome = true := by decide +kernel
 
 end Shuttle.Props.C08
